@@ -144,7 +144,7 @@ func genMixedTerm(t *rapid.T) *Case {
 	c.Events = []Event{ev}
 	if rapid.IntRange(0, 3).Draw(t, "yield") == 0 {
 		c.Yields = append(c.Yields, Yield{
-			Point: rapid.SampledFrom([]string{"server.finish.afterCancel", "receiver.dequeue.beforeCredit", "client.finish.beforeTrailers", "client.cancel.afterFinish", "server.halfClose.beforeReceiverClose"}).Draw(t, "yield.point"),
+			Point: rapid.SampledFrom([]string{"server.finish.afterCancel", "receiver.dequeue.beforeCredit", "client.finish.beforeTrailers", "client.cancel.afterFinish", "server.halfClose.beforeReceiverClose", "receiver.closure.afterWake"}).Draw(t, "yield.point"),
 			Nth:   rapid.IntRange(0, 6).Draw(t, "yield.nth"),
 			Kind:  rapid.SampledFrom([]string{"gosched", "sleep"}).Draw(t, "yield.kind"),
 		})
